@@ -153,7 +153,7 @@ def run (kv : KV) : String :=
     ++ ",hold:" ++ b01 holdOk
     ++ ",alloc:" ++ b01 (!has kv "maxalloc" || decide (toNatD (get kv "maxalloc") ≤ 262144 + 16 * toNatD (get kv "sent") + 8 * wire.length))
   let sub := "heads:" ++ b01 v.heads ++ ",bodies:" ++ b01 v.bodies ++ ",seq:" ++ b01 v.seq ++ ",wire:" ++ b01 v.wire
-    ++ ",eof:" ++ b01 v.eof ++ ",addr:" ++ b01 v.addr ++ ",nohang:" ++ b01 (!hang) ++ ",results:" ++ b01 okResults
+    ++ ",eof:" ++ b01 v.eof ++ ",addr:" ++ b01 (v.addr && toNatD (get kv "gone_noaddr") == 0) ++ ",nohang:" ++ b01 (!hang) ++ ",results:" ++ b01 okResults
     ++ ",dates:" ++ b01 (get kv "dates" == "ok") ++ extra
   let agr := "heads:" ++ b01 aHeads ++ ",bodies:" ++ b01 aBodies ++ ",seq:" ++ b01 aSeq ++ ",wire:" ++ b01 aWire
     ++ ",eof:" ++ b01 aEof ++ ",ahead:" ++ b01 aAhead ++ ",hold:" ++ b01 aHold
